@@ -466,3 +466,38 @@ Theorem kmip_unmarshal_outcomes : forall root bs,
   bytes_ok bs = true ->
   (exists v, kmip_unmarshal root bs = Ok v) \/ kmip_unmarshal root bs = Err \/ kmip_unmarshal root bs = OutOfFuel.
 Proof. intros root bs Hr Hb. apply np_cases, np_neq. exact (kmip_unmarshal_never_panics root bs Hr Hb). Qed.
+
+(** ---- the same typed decoder over the XML and JSON readers (TextFmt.v): their scalar
+    parsers return on every raw value (TextFmtProofs.xml_fmt_total / json_fmt_total), so
+    ttlv.UnmarshalXML / UnmarshalJSON into a message never panic on any document, for any
+    enumeration / tag registry [G]. *)
+From KV Require TextLex TextFmt TextFmtProofs.
+
+Lemma returns_nopanic {A} (r : res A) : TextLex.returns r -> nopanic r.
+Proof. destruct r; cbn; auto. Qed.
+
+Lemma text_fmt_total {R} (F : rawfmt R) : TextFmtProofs.fmt_total F -> fmt_total F.
+Proof. intros [a b c d e f g h i j]. constructor; intros; apply returns_nopanic; auto. Qed.
+
+Theorem kmip_unmarshal_xml_never_panics : forall G root doc cut,
+  (root = "kmip.RequestMessage" \/ root = "kmip.ResponseMessage")%string ->
+  kmip_unmarshal_xml G root doc cut <> Panic.
+Proof.
+  intros G root doc cut Hroot. apply np_neq. unfold kmip_unmarshal_xml.
+  apply np_bind.
+  { unfold TextFmt.xml_cursor. destruct doc; [exact I|]. eapply np_safe; apply c_open_safe. }
+  intros c. apply np_neq. destruct kmip_roots_decodable as [Hq Hs].
+  destruct Hroot as [-> | ->]; apply kmip_dec_never_panics;
+    try (apply text_fmt_total, TextFmtProofs.xml_fmt_total); try assumption; reflexivity.
+Qed.
+
+Theorem kmip_unmarshal_json_never_panics : forall G root doc,
+  (root = "kmip.RequestMessage" \/ root = "kmip.ResponseMessage")%string ->
+  kmip_unmarshal_json G root doc <> Panic.
+Proof.
+  intros G root doc Hroot. apply np_neq. unfold kmip_unmarshal_json.
+  apply np_bind; [unfold TextFmt.json_cursor; eapply np_safe; apply c_open_safe|].
+  intros c. apply np_neq. destruct kmip_roots_decodable as [Hq Hs].
+  destruct Hroot as [-> | ->]; apply kmip_dec_never_panics;
+    try (apply text_fmt_total, TextFmtProofs.json_fmt_total); try assumption; reflexivity.
+Qed.
